@@ -21,8 +21,9 @@ RULES = {
     'R5': 'alloc: non-overwrite too-small edge returns NULL (errno=EAGAIN) with no shared store; chunk_write: NULL test dominates memcpy which precedes commit',
     'R6': 'peek/read: timedwait_fn (when installed) before the marker load; token reposted on the marker-not-published edge',
     'R7': 'qb_atomic_int_set_ex/get_ex are __atomic_store_n/__atomic_load_n with qb_model_map(model); qb_model_map maps every member to the same-named __ATOMIC_*',
+    'R8': 'the write index never catches up with the read index while chunks are unread (equal indices are read as "empty"): the free-space computation keeps one spare word in both unequal-index cases and the allocation margin covers the chunk header plus the alignment word, the same margin at open and at alloc (= C07.R1, C07.R6)',
 }
-FLOORS = {'R1': 5, 'R2': 9, 'R3': 4, 'R4': 5, 'R5': 5, 'R6': 5, 'R7': 8}
+FLOORS = {'R1': 5, 'R2': 9, 'R3': 4, 'R4': 5, 'R5': 5, 'R6': 5, 'R7': 8, 'R8': 8}
 
 MAGIC = 0xA1A1A1A1
 
@@ -66,6 +67,7 @@ def run(ctx):
     r5(ctx, magic)
     r6(ctx, magic)
     r7(ctx)
+    r8(ctx)
 
 
 # -- R1 ---------------------------------------------------------------------
@@ -276,20 +278,31 @@ def r5(ctx, magic):
                 any(callee_of(n) == 'qb_rb_space_free' for n in walk(c) if n.get('k') == 'call') and \
                 mentions_var(c, f.params[1]['n']):
             cmp_blocks.append(b)
-    if len(cmp_blocks) < 2:
-        raise AnalysisBroken('qb_rb_chunk_alloc: expected the space comparison in both modes, found %d' % len(cmp_blocks))
+    if not cmp_blocks:
+        raise AnalysisBroken('qb_rb_chunk_alloc: no free-space comparison found')
     shared = [ev for ev in f.events() if shared_store(ev)]
     if not shared:
         raise AnalysisBroken('qb_rb_chunk_alloc: no header stores')
+    # a refusal (NULL result) changes nothing: no shared store can precede a NULL return, whatever the control structure
+    nulls = [r for r in f.returns() if r.e is not None and cval(unwrap(r.e)) == 0]
+    if not nulls:
+        raise AnalysisBroken('qb_rb_chunk_alloc: no NULL return')
+    dirty = [(s_, r) for s_ in shared for r in nulls if f.may_follow(s_, r)]
+    ctx.check('R5', 'refusal-stores-nothing', not dirty, dirty[0][0] if dirty else nulls[0],
+              'no store to the ring precedes a NULL return of qb_rb_chunk_alloc',
+              'qb_rb_chunk_alloc can return NULL after it has already stored to the ring (%r): a refused write changes the ring' % (dirty[0][0] if dirty else None))
     nonloop = [b for b in cmp_blocks if b.term == 'IfStmt']
-    if len(nonloop) != 1:
-        raise AnalysisBroken('qb_rb_chunk_alloc: non-overwrite space test not found')
-    b = nonloop[0]
-    c = unwrap(b.cond)
+    b = nonloop[0] if len(nonloop) == 1 else None
+    c = unwrap(b.cond) if b is not None else None
     # which sense means "too small"?  space_free on the left with '<' => True
-    left_is_free = any(callee_of(n) == 'qb_rb_space_free' for n in walk(c['l']) if n.get('k') == 'call')
-    small_sense = (c['op'] in ('<', '<=')) == left_is_free
-    for (t, lab) in b.succs:
+    left_is_free = b is not None and any(callee_of(n) == 'qb_rb_space_free' for n in walk(c['l']) if n.get('k') == 'call')
+    small_sense = b is not None and (c['op'] in ('<', '<=')) == left_is_free
+    if b is None:
+        # no separate non-overwrite test: the refusal must still exist somewhere - a NULL return with errno = EAGAIN
+        eag = [st for st in f.events('STORE') if 'errno' in estr(st.lhs) and cval(unwrap(st.rhs)) == 11]
+        ctx.check('R5', 'refused-errno-eagain', bool(eag) and any(f.may_follow(st, r) for st in eag for r in nulls), eag[0] if eag else f,
+                  'a refusal sets errno = EAGAIN and returns NULL', 'no refusal path sets errno to EAGAIN')
+    for (t, lab) in (b.succs if b is not None else []):
         if lab is small_sense:
             hits, exits, _n = f.search(('edge', b.id, t), goal=lambda ev: shared_store(ev))
             ctx.check('R5', 'refused-no-shared-store', not hits, hits[0][0] if hits else 'lib/ringbuffer.c (qb_rb_chunk_alloc)',
@@ -449,3 +462,15 @@ def r7(ctx):
         ctx.check('R7', 'wrapper:%s' % fname, ok, f,
                   '%s is %s(atomic, …, qb_model_map(model)) on every path' % (fname, builtin),
                   '%s no longer forwards to %s with the mapped memory order' % (fname, builtin))
+
+
+def r8(ctx):
+    from rules import c07
+    sub = type(ctx)(ctx.prog, ctx.prop, ctx.tier, ctx.depth)
+    H = c07.r2(sub)
+    sub.results = []
+    c07.r1(sub, H)
+    c07.r6(sub)
+    for r in sub.results:
+        r['rule'] = 'R8'
+        ctx.results.append(r)
